@@ -24,7 +24,8 @@ func VxH14a() {
 	p1, p2 := vxStr("p1", L, vxClassSmall), vxStr("p2", L, vxClassSmall)
 	vxAssume(vxCleanPath(p1))
 	vxAssume(vxCleanPath(p2))
-	v1, v2 := vxStr("v1", 2, vxClassSmall), vxStr("v2", 2, vxClassSmall)
+	// parameter values may contain blanks (and differ only in them)
+	v1, v2 := vxStr("v1", 2, vxClassSmallWS), vxStr("v2", 2, vxClassSmallWS)
 	t1 := vxMkTask14(name, map[string]string{"in": p1}, map[string]string{"k": v1}, nil)
 	t2 := vxMkTask14(name, map[string]string{"in": p2}, map[string]string{"k": v2}, nil)
 	differ := vxOr(p1 != p2, v1 != v2)
